@@ -16,7 +16,7 @@ RULE = ("scenario = (items preloaded in the memcached model, client configuratio
         "END, VALUE lines, a lone CR at the end, empty values; multi-key replies; value sizes 0,1,4090..4100,8190..8194,"
         "100000; store/delete/incr/touch/version/flush lines; set_many/delete_many multi-line replies; stats (also "
         "cachedump ITEM lines and valueless STATs); raw_command with end tokens CRLF, END CRLF, LF CR LF END CR LF and "
-        "a token whose prefix occurs inside the body; plus Hypothesis-drawn values/keys; and the same calls after a history of 1-24 earlier fetches (empty, small, large values) on the same client object. Segmentations: every subset "
+        "a token whose prefix occurs inside the body, and ERROR / CLIENT_ERROR / SERVER_ERROR lines sent in answer to raw_command with each of these end tokens (also one that ends the error line itself); plus Hypothesis-drawn values/keys; and the same calls after a history of 1-24 earlier fetches (empty, small, large values) on the same client object. Segmentations: every subset "
         "of cut positions for streams <= 14 bytes (thorough 16); all 1-, 2- (and thorough 3-) cut segmentations for "
         "streams <= 64 bytes; all-single-byte; for long streams cuts at 4096k-1/4096k/4096k+1, in the last 8 bytes, "
         "and exact 4096-byte pieces. Oracle (metamorphic): result (value incl. type, or exception class) equals the "
@@ -137,9 +137,12 @@ def check(case):
         end = end.encode() if isinstance(end, str) else end
         # the whole stream the server sent (left-over included) is what a caller of raw_command gets to see
         full = stream + b"".join(b"".join(x for x, _ in s.rx) for s in _env_sockets(scn))
-        if full.find(end) + len(end) != len(full) or full.find(end) < 0:
+        if full.startswith((b"ERROR", b"CLIENT_ERROR", b"SERVER_ERROR")) and base[0] == "exc":
+            pass          # an error line instead of the reply: the unsplit run raised the memcached error, every segmentation has to as well
+        elif full.find(end) + len(end) != len(full) or full.find(end) < 0:
             return False, ["scenario-skipped:end-token-not-final"]
-        scn = dict(scn, expect=full[:full.find(end)])
+        else:
+            scn = dict(scn, expect=full[:full.find(end)])
     if "expect" in scn and _norm(base) != _norm(("ok", scn["expect"])):
         raise Violation(["unsplit-result-wrong", scn["op"]["op"]], "unsplit delivery returned %r, expected %r: %s" % (_short(base), _short(scn["expect"]), desc))
     if left or flags:
@@ -233,6 +236,12 @@ def corpus(sizes=(0, 1, 4090, 4094, 4095, 4096, 4097, 4098, 8190, 8192, 8194, 10
                  cluster=b"12\nh1.example.com|10.0.0.1|11211 h2.example.com|10.0.0.2|11211\n",
                  expect=b"CONFIG cluster 0 65\r\n12\nh1.example.com|10.0.0.1|11211 h2.example.com|10.0.0.2|11211"))
     out.append(S({"op": "raw_command", "command": b"get big", "end": b"END\r\n"}, [(b"big", b"y" * 5000, 0)], expect=b"VALUE big 0 5000\r\n" + b"y" * 5000 + b"\r\n"))
+    # error lines where a reply with another end token was expected
+    for end in (b"END\r\n", b"\n\r\nEND\r\n", b"\r\n", b"OR\r\n"):
+        out.append(S({"op": "raw_command", "command": b"bogus", "end": end}, []))                                  # ERROR
+        out.append(S({"op": "raw_command", "command": b"incr n 5", "end": end}, [(b"n", b"abc", 0)]))             # CLIENT_ERROR ...
+        out.append(S({"op": "raw_command", "command": b"config get cluster", "end": end}, []))                    # no cluster configuration: ERROR
+        out.append(S({"op": "raw_command", "command": b"set big 0 0 2000000", "end": end}, []))                    # SERVER_ERROR object too large
     return out
 
 
